@@ -21,17 +21,21 @@ KA == <<"k">>
 MVal == VM(KA :> VS(s))
 MKey == VM(s :> VS(<<"v">>))
 MNest == VM(KA :> VL(<<VS(s), VM(s :> VL(<<VS(s)>>))>>))
+MObj == VM(<<"o", "b", "j", "e", "c", "t">> :> VL(<<VS(s)>>))        \* the key under which NewMapJson puts a bare list: a Map like any other for the encoders
 Emit == DoEmit => PrintT(ToJson([f |-> "json", s |-> Join(s),
            cs |-> <<[shape |-> "val", safe |-> FALSE, x |-> Join(JsonOf(MVal, FALSE))], [shape |-> "val", safe |-> TRUE, x |-> Join(JsonOf(MVal, TRUE))],
                     [shape |-> "key", safe |-> FALSE, x |-> Join(JsonOf(MKey, FALSE))], [shape |-> "key", safe |-> TRUE, x |-> Join(JsonOf(MKey, TRUE))],
-                    [shape |-> "nest", safe |-> FALSE, x |-> Join(JsonOf(MNest, FALSE))], [shape |-> "nest", safe |-> TRUE, x |-> Join(JsonOf(MNest, TRUE))]>>]))
+                    [shape |-> "nest", safe |-> FALSE, x |-> Join(JsonOf(MNest, FALSE))], [shape |-> "nest", safe |-> TRUE, x |-> Join(JsonOf(MNest, TRUE))],
+                    [shape |-> "object", safe |-> FALSE, x |-> Join(JsonOf(MObj, FALSE))], [shape |-> "object", safe |-> TRUE, x |-> Join(JsonOf(MObj, TRUE))]>>]))
 (* ---- NewMapJson acceptance: [ws] value [ws] [trailer] ---- *)
 Values == {[t |-> "{}", k |-> "obj"], [t |-> "{\"a\":1}", k |-> "obj"], [t |-> "{\"a\":{\"b\":[1,\"x\"]}}", k |-> "obj"],
            [t |-> "[1]", k |-> "arr"], [t |-> "[]", k |-> "arr"], [t |-> "[{\"a\":1},2]", k |-> "arr"],
            [t |-> "null", k |-> "other"], [t |-> "1", k |-> "other"], [t |-> "\"s\"", k |-> "other"], [t |-> "true", k |-> "other"],
            [t |-> "{\"a\":", k |-> "bad"], [t |-> "}", k |-> "bad"], [t |-> "{a:1}", k |-> "bad"], [t |-> "[1", k |-> "bad"],
            \* white space for Unicode / Go, but not for JSON (% stands for form feed, ` for U+00A0): not a JSON text
-           [t |-> "%{\"a\":1}", k |-> "bad"], [t |-> "`[1]", k |-> "bad"], [t |-> "%{}", k |-> "bad"]}
+           [t |-> "%{\"a\":1}", k |-> "bad"], [t |-> "`[1]", k |-> "bad"], [t |-> "%{}", k |-> "bad"],
+           \* a byte-order mark (@) is not white space for JSON either
+           [t |-> "@{\"a\":1}", k |-> "bad"], [t |-> "@[1]", k |-> "bad"]}
 Wss == {"", " ", "\n\t"}
 Trailers == {"", "x", "{\"b\":2}", "}"}
 Inputs == {[text |-> w1 \o v.t \o w2 \o tr, kind |-> v.k, lead |-> w1 # "", trail |-> tr # ""] : v \in Values, w1 \in Wss, w2 \in Wss, tr \in Trailers}
